@@ -869,6 +869,15 @@ class Message(ABC):
                 # Found a non-sentinel value
                 all_sentinel = False
 
+                if (
+                    isinstance(value, Message)
+                    and not value._betterproto.meta_by_field_name
+                ):
+                    # A message without fields (e.g. Empty) given to the constructor
+                    # is present, as when it is assigned (pydantic's __init__ does
+                    # not go through __setattr__).
+                    value._serialized_on_wire = True
+
                 if meta.group:
                     # This was set, so make it the selected value of the one-of.
                     group_current[meta.group] = field_name
